@@ -271,8 +271,21 @@ theorem tie_store_offsets :
          "_.FreeSpaceOffset += uint64(_.Header.Size)", "_.FreeSpaceOffset = uint64(0)",
          "_.GUIDStoreOffset = _.Length",
          "_.GUIDStoreOffset = _.Length - uint64(binary.Size(guid.GUID{}))*uint64(len(_.GUIDStore))",
-         "_.Length = uint64(len(_))"] ∧
+         "_.Length = uint64(len(_))",
+         -- fixes/C04-nvar-table-overlap.diff: the model's `walk` answers `Err.parse` on the same condition
+         "if _.FreeSpaceOffset > _.GUIDStoreOffset"] ∧
     NvramLogic.stmts_NVarStore_GetGUIDStoreBuf = ["_ := len(_.GUIDStore) - 1"] := by decide
+
+/-- `newNVar` looks for a nested store in `buf[DataOffset:]` once, and only when the ExtHeader attribute is
+    clear (fixes/C10-nested-ext-header.diff, wp-nvfix): the model's `nestedOf` answers `none` for every entry
+    that has the attribute, whatever its content -/
+theorem tie_nested_lookup :
+    NvramLogic.stmts_newNVar
+      = ["_ = _.parseContent(_.buf[_.DataOffset:])", "if _.Header.Attributes&NVarEntryExtHeader == 0"] ∧
+    (∀ (pol : Nat) (v : NVar), hasBit v.attrs aExtHdr = true → nestedOf pol v = none) := by
+  refine ⟨by decide, ?_⟩
+  intro pol v h
+  simp [nestedOf, h]
 
 /-! ## compaction: what comes from the head (`h` = v11, the value of the map at the kept entry's
 offset), what from the kept entry (`k` = v10), in the numbered normalisation of `nvstmts #`:
